@@ -36,20 +36,20 @@ import (
 )
 
 type env struct {
-	hash   map[*block.Block]string            // constants of the fixture, read before the goroutines start
-	shash  map[*block.Block]util.Key           // the state hash the block was given
-	mk     map[*block.Block]func() util.MerklePatriciaTrieI
-	bsc    map[*block.Block]*block.StateChange // a state change matching the block
-	withCompute bool                          // the scenario runs ComputeState (see the SetPreviousBlock driver)
-	r      *round.Round
-	b, pb  *block.Block
-	ppb    *block.Block
-	pool   []*block.Block // blocks the round operations are fed with
-	nodes  []*node.Node
-	npool  *node.Pool
-	ch     *stubChain
-	root   util.Key
-	shares []*round.VRFShare
+	hash        map[*block.Block]string   // constants of the fixture, read before the goroutines start
+	shash       map[*block.Block]util.Key // the state hash the block was given
+	mk          map[*block.Block]func() util.MerklePatriciaTrieI
+	bsc         map[*block.Block]*block.StateChange // a state change matching the block
+	withCompute bool                                // the scenario runs ComputeState (see the SetPreviousBlock driver)
+	r           *round.Round
+	b, pb       *block.Block
+	ppb         *block.Block
+	pool        []*block.Block // blocks the round operations are fed with
+	nodes       []*node.Node
+	npool       *node.Pool
+	ch          *stubChain
+	root        util.Key
+	shares      []*round.VRFShare
 }
 
 type stubChain struct {
@@ -61,8 +61,10 @@ type stubChain struct {
 	keys map[*block.Block][]util.Path
 }
 
-func (c *stubChain) GetPreviousBlock(ctx context.Context, b *block.Block) *block.Block { return c.prev[b] }
-func (c *stubChain) GetBlockStateChange(b *block.Block) error                           { return nil }
+func (c *stubChain) GetPreviousBlock(ctx context.Context, b *block.Block) *block.Block {
+	return c.prev[b]
+}
+func (c *stubChain) GetBlockStateChange(b *block.Block) error { return nil }
 func (c *stubChain) ComputeState(ctx context.Context, pb *block.Block, waitC ...chan struct{}) error {
 	return nil
 }
@@ -76,7 +78,7 @@ func (c *stubChain) UpdateState(ctx context.Context, b *block.Block, bState util
 	}
 	return nil, nil
 }
-func (c *stubChain) GetEventDb() *event.EventDb              { return nil }
+func (c *stubChain) GetEventDb() *event.EventDb            { return nil }
 func (c *stubChain) GetStateCache() *statecache.StateCache { return c.sc }
 
 func mkTxn(i int) *transaction.Transaction {
@@ -98,7 +100,9 @@ func baseState() util.MerklePatriciaTrieI {
 
 var k1, k2 = util.Path("c0ffee"), util.Path("decade")
 
-func changeVal() *util.SecureSerializableValue { return &util.SecureSerializableValue{Buffer: []byte("changed")} }
+func changeVal() *util.SecureSerializableValue {
+	return &util.SecureSerializableValue{Buffer: []byte("changed")}
+}
 
 // stateWith: the base state plus uncommitted insertions (one change each)
 func stateWith(keys ...util.Path) util.MerklePatriciaTrieI {
@@ -300,7 +304,7 @@ func init() {
 	rd("timeoutCounter.GetNormalizedTimeoutCount", func(e *env, i int) { keep(e.r.GetNormalizedTimeoutCount()) })
 	rd("timeoutCounter.GetTimeoutCount", func(e *env, i int) { keep(e.r.GetTimeoutCount()) })
 	rd("timeoutCounter.IncrementTimeoutCount", func(e *env, i int) { e.r.IncrementTimeoutCount(int64(1+i%3), e.npool) })
-	rd("timeoutCounter.SetTimeoutCount", func(e *env, i int) { keep(e.r.SetTimeoutCount(i % 50)) })
+	rd("timeoutCounter.SetTimeoutCount", func(e *env, i int) { keep(e.r.SetTimeoutCount(i)) })
 
 	// ---- block.Block (t = the block the entry is applied to: e.b or its previous block e.pb)
 	bd("Block.AddUniqueBlockExtension", func(e *env, t *block.Block, i int) { t.AddUniqueBlockExtension(e.pool[i%len(e.pool)]) })
@@ -439,6 +443,10 @@ func runScenario(idx int, a, b string, iters int) {
 		combos = append(combos, combo{"pb", "pb"}, combo{"b", "pb"}, combo{"pb", "b"})
 	} else if da.kind == "block" || db.kind == "block" {
 		combos = []combo{{"b", "b"}, {"pb", "pb"}}
+	} else {
+		// two round entries: three fresh rounds (some writes happen once in the life of a round: the ranking of the
+		// timeout counters, the first random seed)
+		combos = []combo{{"b", "b"}, {"b", "b"}, {"b", "b"}}
 	}
 	for _, c := range combos {
 		e := newEnv()
@@ -452,6 +460,7 @@ func runScenario(idx int, a, b string, iters int) {
 		ta, tb := pick(c.ta), pick(c.tb)
 		fmt.Fprintf(os.Stderr, "=== SCEN %d %s %s %s/%s\n", idx, a, b, c.ta, c.tb)
 		e.printObjects()
+		tScen := time.Now()
 		var wg sync.WaitGroup
 		start := make(chan struct{})
 		var panics int32
@@ -459,10 +468,18 @@ func runScenario(idx int, a, b string, iters int) {
 		run := func(d driver, t *block.Block, off int) {
 			defer wg.Done()
 			<-start
-			// at least `iters` calls and at least 4 ms (cheap entries would otherwise be done before the other
-			// goroutines have started); time.Now is not a synchronisation for the race detector
+			// `iters` calls, but at least 4 ms (cheap entries would otherwise be done before the other goroutines have
+			// started) and, for expensive entries, no longer than 25 ms once 20 calls are done; time.Now is not a
+			// synchronisation for the race detector
 			t0 := time.Now()
-			for i := 0; i < iters || (time.Since(t0) < 4*time.Millisecond && i < iters*200); i++ {
+			for i := 0; ; i++ {
+				el := time.Since(t0)
+				if i >= iters && el >= 4*time.Millisecond {
+					break
+				}
+				if i >= 20 && el >= time.Duration(25*iters/120)*time.Millisecond {
+					break
+				}
 				func() {
 					defer func() {
 						if r := recover(); r != nil {
@@ -491,7 +508,7 @@ func runScenario(idx int, a, b string, iters int) {
 		if p := atomic.LoadInt32(&panics); p > 0 {
 			fmt.Fprintf(os.Stderr, "=== PANICS %d %s %s n=%d first=%v\n", idx, a, b, p, firstPanic.Load())
 		}
-		fmt.Fprintf(os.Stderr, "=== END %d\n", idx)
+		fmt.Fprintf(os.Stderr, "=== END %d %dms\n", idx, time.Since(tScen).Milliseconds())
 	}
 }
 
